@@ -339,9 +339,9 @@ theorem ticks_link_exclusive_invariant (s s' : DState) (hex : Excl s) (hfresh : 
          (∃ p i ls, setLabels s p i ls = .ok s') ∨ (∃ p i a v, setDimAttr s p i a v = .ok s') ∨
          (∃ p i t c, linkDataFrame s p i t c = .ok s' ∧ ∀ dn, dimAt s p i = .ok dn →
             kindOf s.g dn = kDimRange ∨ kindOf s.g dn = kDimSet ∨ kindOf s.g dn = kDimSample) ∨
-         (∃ q c vals, writeColumn s q c vals = .ok s')) : Excl s' := by
+         (∃ q c vals, writeColumn s q c vals = .ok s') ∨ (∃ q units, setUnits s q units = .ok s')) : Excl s' := by
   rcases h with ⟨p, i, ts, h⟩ | ⟨p, i, t, iv, h, hk⟩ | ⟨p, i, h⟩ | ⟨q, vals, h⟩ | ⟨p, i, ls, h⟩ | ⟨p, i, a, v, h⟩ |
-    ⟨p, i, t, c, h, hk⟩ | ⟨q, c, vals, h⟩
+    ⟨p, i, t, c, h, hk⟩ | ⟨q, c, vals, h⟩ | ⟨q, units, h⟩
   · exact excl_setTicks hex h
   · exact excl_linkDataArray hex hfresh hk h
   · exact excl_removeLink hex h
@@ -350,6 +350,7 @@ theorem ticks_link_exclusive_invariant (s s' : DState) (hex : Excl s) (hfresh : 
   · exact excl_setDimAttr hex h
   · exact excl_linkDataFrame hex hfresh hk h
   · exact excl_writeColumn hex h
+  · exact excl_setUnits hex h
 
 /-- it holds in the empty file -/
 theorem ticks_link_exclusive_init : Excl initD := by
@@ -417,18 +418,107 @@ theorem linked_frame_values_follow_writes (s s' : DState) (dn t c c' : Nat) (q :
   rw [readTicks_frame hl' hf1, hcc]
   exact column_setColumn fd c vals hlen hrows
 
-/-- unit and label of a range dimension linked to a frame column are the column's entry of the
-frame's `units` and the column's name -/
+/-- unit and label of a range dimension linked to a frame column are the frame's: the label is the column's
+name; the unit is what `DataFrame.units` (`frameUnits`) shows for that column — None when the frame has no
+units at all (the read used to raise TypeError there: repaired in nixio), the column's entry otherwise, an
+entry kept as empty text reading None on both sides -/
 theorem linked_frame_unit_label (s s' : DState) (p : Path) (i t dn : Nat) (c : Int)
     (hl : linkDataFrame s p i t c = .ok s') (hdn : dimAt s p i = .ok dn)
     (hk : kindOf s.g dn = kDimRange) (hfresh : s.g.node? s.g.nextKey = none) :
-    ∃ fd, frameOf s' t = some fd ∧ ∀ u n, fd.units[c.toNat]? = some u → fd.cols[c.toNat]? = some n →
-      readDimAttr s' dn "unit" = .ok u ∧ readDimAttr s' dn "label" = .ok (some n) := by
-  obtain ⟨hlinked, ⟨fd, _, hc0, _, hf'⟩, _, hkind, _⟩ := linkDataFrame_linked hl hdn (Or.inl hk) hfresh
+    ∃ fd n, frameOf s' t = some fd ∧ fd.cols[c.toNat]? = some n ∧
+      readDimAttr s' dn "label" = .ok (some n) ∧
+      (frameUnits fd = none → readDimAttr s' dn "unit" = .ok none) ∧
+      (∀ us u, frameUnits fd = some us → us[c.toNat]? = some u → readDimAttr s' dn "unit" = .ok u) := by
+  obtain ⟨hlinked, ⟨fd, _, hc0, hclt, hf'⟩, _, hkind, _⟩ := linkDataFrame_linked hl hdn (Or.inl hk) hfresh
   have hcc : ((c.toNat : Nat) : Int) = c := Int.toNat_of_nonneg hc0
   rw [← hcc] at hlinked
   rw [hk] at hkind
-  exact ⟨fd, hf', fun u n hu hn => readDimAttr_frame hlinked hkind hf' hu hn⟩
+  have hn : fd.cols[c.toNat]? = some fd.cols[c.toNat] := List.getElem?_eq_getElem hclt
+  obtain ⟨hu, hlab⟩ := readDimAttr_frame hlinked hkind hf' hn
+  refine ⟨fd, _, hf', hn, hlab, ?_, ?_⟩
+  · intro h0; rw [hu]; exact linkFrameUnit_no_units h0 _
+  · intro us u h1 h2; rw [hu]; exact linkFrameUnit_of_units h1 h2
+
+/-- … the read is never refused for a frame whose `units`, when present, has one entry per column -/
+theorem linked_frame_unit_never_refused (s : DState) (dn t c : Nat) (fd : FrameData)
+    (hl : LinkedAs s dn t "DataFrame" [(c : Int)]) (hk : kindOf s.g dn = kDimRange)
+    (hf : frameOf s t = some fd) (hwf : FrameWF fd) (hc : c < fd.cols.length) :
+    ∃ u, readDimAttr s dn "unit" = .ok u := by
+  have hn : fd.cols[c]? = some fd.cols[c] := List.getElem?_eq_getElem hc
+  rw [(readDimAttr_frame hl hk hf hn).1]
+  exact linkFrameUnit_total hwf hc
+
+/-- `dim.unit = v` through a range dimension linked to column `c` of a frame — `v` a text, the empty text or
+None, the frame with or without units (both None and a frame without units used to raise TypeError: repaired
+in nixio) — is accepted and is a write to the FRAME: afterwards the dimension and `DataFrame.units` both show
+`v` for that column (None for None / ""), every other column reads as before (None where the frame had no
+units), columns, rows and the link are untouched -/
+theorem linked_frame_unit_write_visible (s : DState) (p : Path) (i dn t c : Nat) (fd : FrameData)
+    (v : Option String) (hdn : dimAt s p i = .ok dn)
+    (hl : LinkedAs s dn t "DataFrame" [(c : Int)]) (hk : kindOf s.g dn = kDimRange)
+    (hf : frameOf s t = some fd) (hwf : FrameWF fd) (hc : c < fd.cols.length) :
+    ∃ s' fd', setDimAttr s p i "unit" v = .ok s' ∧ frameOf s' t = some fd' ∧
+      LinkedAs s' dn t "DataFrame" [(c : Int)] ∧ FrameWF fd' ∧ fd'.cols = fd.cols ∧ fd'.rows = fd.rows ∧
+      readDimAttr s' dn "unit" = .ok (normUnit v) ∧
+      frameUnits fd' = some ((match frameUnits fd with
+        | some us => us
+        | none => List.replicate fd.cols.length none).set c (normUnit v)) := by
+  obtain ⟨fd', hset, hcols, hrows, hwf', hread, hunits⟩ := setFrameUnit_spec hwf hc v
+  have hlk := hasLink_of_linkedAs hl
+  have hty := linkType_of_linkedAs hl
+  have hcol := linkColumn_of_linkedAs hl
+  obtain ⟨ds, hds, hlook⟩ : ∃ ds, s.g.child? t "data" = some ds ∧ look s.frames ds = some fd := by
+    unfold frameOf at hf
+    cases hds : s.g.child? t "data" with
+    | none => simp [hds] at hf
+    | some ds => exact ⟨ds, rfl, by simpa [hds] using hf⟩
+  have htgt : linkTarget s.g dn = some t := by
+    obtain ⟨ln, nm, h1, h2, _, _⟩ := hl
+    simp [linkTarget, h1, h2]
+  let s' : DState := { s with frames := put s.frames ds fd' }
+  have hstep : setDimAttr s p i "unit" v = .ok s' := by
+    have hne : ¬ kDimRange = kDimSet := by decide
+    simp [setDimAttr, hdn, hk, hne, hlk, htgt, hty, hds, hlook, hcol, hset, s']
+  have hf' : frameOf s' t = some fd' := by simp [frameOf, s', hds, look_put_self]
+  have hl' : LinkedAs s' dn t "DataFrame" [(c : Int)] := hl
+  have hc' : c < fd'.cols.length := by rw [hcols]; exact hc
+  have hn : fd'.cols[c]? = some fd'.cols[c] := List.getElem?_eq_getElem hc'
+  refine ⟨s', fd', hstep, hf', hl', hwf', hcols, hrows, ?_, hunits⟩
+  rw [(readDimAttr_frame hl' hk hf' hn).1]
+  exact hread
+
+/-- … and a unit assigned to the frame itself (`frame.units = units`, through whichever path `q` the frame is
+reached) is what the dimension linked to column `c` reports from then on -/
+theorem linked_frame_unit_follows_frame_writes (s s' : DState) (dn t c : Nat) (q : Path) (lq : Loc)
+    (units : List (Option String)) (u : Option String)
+    (hl : LinkedAs s dn t "DataFrame" [(c : Int)]) (hk : kindOf s.g dn = kDimRange)
+    (hq : resolve s.g rootLoc q = some lq) (ht : lq.key = t) (hw : setUnits s q units = .ok s')
+    (hu : units[c]? = some u) :
+    ∃ fd', frameOf s' t = some fd' ∧ frameUnits fd' = some (units.map normUnit) ∧
+      readDimAttr s' dn "unit" = .ok (normUnit u) := by
+  obtain ⟨f, ds, fd, hf, hds, hd, hlen, hs'⟩ := setUnits_ok hw
+  obtain ⟨l, hr, hlf, _⟩ := frameAt_ok hf
+  rw [hq] at hr
+  cases hr
+  rw [ht] at hlf
+  subst hlf
+  have hf1 : frameOf s' t = some { fd with units := some (storeUnits units) } := by
+    subst hs'
+    simp [frameOf, hds, look_put_self]
+  have hl' : LinkedAs s' dn t "DataFrame" [(c : Int)] := by
+    subst hs'
+    exact hl
+  have hk' : kindOf s'.g dn = kDimRange := by
+    subst hs'
+    exact hk
+  have hclt : c < fd.cols.length := by
+    have := (List.getElem?_eq_some_iff.mp hu).1
+    omega
+  have hn : ({ fd with units := some (storeUnits units) } : FrameData).cols[c]? = some fd.cols[c] :=
+    List.getElem?_eq_getElem hclt
+  refine ⟨_, hf1, frameUnits_storeUnits fd units, ?_⟩
+  rw [(readDimAttr_frame hl' hk' hf1 hn).1]
+  exact linkFrameUnit_of_units (frameUnits_storeUnits fd units) (by simp [hu])
 
 /-- `link_data_frame` on a range dimension replaces the explicit ticks (and the dimension is not an
 "alias": that name is kept for links to a DataArray) -/
@@ -587,7 +677,7 @@ example : ((resolve demo.g rootLoc [.name "data", .name "b1", .name "groups", .n
 def demoFrameOps : List DOp := [
   .store (.createBlock "b1" "t"),
   .createArray [.name "data", .name "b1"] "y" "t" [3] [1, 2, 3],
-  .createFrame [.name "data", .name "b1"] "df" "t" ["t", "v"] [some "s", some "mV"] [[0, 5], [1, 6], [2, 7]],
+  .createFrame [.name "data", .name "b1"] "df" "t" ["t", "v"] (some [some "s", some "mV"]) [[0, 5], [1, 6], [2, 7]],
   .appendDim [.name "data", .name "b1", .name "data_arrays", .name "y"] (.range (some [1, 2, 3]) none none),
   .linkDataFrame [.name "data", .name "b1", .name "data_arrays", .name "y"] 1
     [.name "data", .name "b1", .name "data_frames", .name "df"] 1,
@@ -606,5 +696,36 @@ example : (demoFrameDim.bind fun dn => (readDimAttr demoFrame dn "unit").toOptio
   decide +kernel
 example : (demoFrameDim.bind fun dn => (readDimAttr demoFrame dn "label").toOption) = some (some "v") := by
   decide +kernel
+
+/-! ### … and a frame made WITHOUT units (the repaired defect: reading or assigning the unit of a dimension
+linked to such a frame, or assigning None, raised TypeError in nixio) -/
+
+def demoBareOps : List DOp := [
+  .store (.createBlock "b" "t"),
+  .createArray [.name "data", .name "b"] "a" "t" [2] [1, 2],
+  .createFrame [.name "data", .name "b"] "df" "t" ["x", "y"] none [[0, 5], [1, 6]],
+  .appendDim [.name "data", .name "b", .name "data_arrays", .name "a"] (.range none none none),
+  .linkDataFrame [.name "data", .name "b", .name "data_arrays", .name "a"] 1
+    [.name "data", .name "b", .name "data_frames", .name "df"] 0]
+
+def bareA : Path := [.name "data", .name "b", .name "data_arrays", .name "a"]
+
+/-- unit of the dimension and `DataFrame.units` after a history -/
+def bareView (ops : List DOp) : Option (Option String) × Option (Option (List (Option String))) :=
+  let s := runD initD (demoBareOps ++ ops)
+  (((arrayAt s bareA).toOption.bind fun a => dimNode s.g a 1).bind fun dn => (readDimAttr s dn "unit").toOption,
+   ((frameAt s [.name "data", .name "b", .name "data_frames", .name "df"]).toOption.bind fun f => frameOf s f).map
+     frameUnits)
+
+example : bareView [] = (some none, some none) := by decide +kernel
+example : bareView [.setDimAttr bareA 1 "unit" (some "mV")] = (some (some "mV"), some (some [some "mV", none])) := by
+  decide +kernel
+example : bareView [.setDimAttr bareA 1 "unit" none] = (some none, some (some [none, none])) := by decide +kernel
+example : bareView [.setDimAttr bareA 1 "unit" (some "mV"), .setDimAttr bareA 1 "unit" (some "")] =
+    (some none, some (some [none, none])) := by decide +kernel
+example : bareView [.setUnits [.name "data", .name "b", .name "data_frames", .name "df"] [some "s", none],
+    .setDimAttr bareA 1 "unit" none] = (some none, some (some [none, none])) := by decide +kernel
+example : bareView [.setUnits [.name "data", .name "b", .name "data_frames", .name "df"] [some "s", some "kg"]] =
+    (some (some "s"), some (some [some "s", some "kg"])) := by decide +kernel
 
 end Nix.C05
